@@ -12,7 +12,7 @@ IMP_NOTE = ('Trusted: Coq kernel; extraction; pgsem; the Go harness. Model Ledge
 PROPS['C11'] = dict(
     target='Props/C11',
     theorems=['C11_roundtrip', 'C11_tx_core_fields', 'C11_roundtrip_moves', 'C11_roundtrip_accounts_partial', 'C11_roundtrip_tables_partial', 'C11_hashes_roundtrip', 'C11_hash_check_sound', 'C11_writable_single', 'C11_resync_above', 'C11_refuted_first_usage', 'C11_refuted_updated_at',
-              'C11_refuted_atomic_writable', 'C11_refuted_atomic_log_id'],
+              'C11_writable_atomic', 'C11_atomic_after_import_next_ids', 'C11_atomic_after_import_log_order', 'C11_unrepaired_atomic_writable', 'C11_unrepaired_atomic_log_id'],
     ties=[dict(name='TIE-D importx', vh='importx', model='importx', n=dict(quick=400, thorough=10000), kinds=['C11'], case_head='importx', timeout=dict(quick=600, thorough=6000))],
     rule=IMP_RULE,
     explanation='PROVED for every feature set, history, hash function and import time (C11_roundtrip, per-log simulation of importLog against Core.step + induction over the history + C09 chain invariant): '
@@ -21,8 +21,8 @@ PROPS['C11'] = dict(
                 '(C11_roundtrip_moves; otherwise only moves.seq is renumbered, compared modulo seq by the tie); accounts table + account metadata history when the history has no SET/DELETE_METADATA on accounts '
                 '(C11_roundtrip_accounts_partial); all tables identical under both (C11_roundtrip_tables_partial). FULL statement REFUTED without the accounts hypothesis, confirmed on the real stack (known_findings.d/import.json): '
                 'SET_METADATA on an account lowers first_usage to the log date (C11_refuted_first_usage), DELETE_METADATA on an account is dated at the import in updated_at and in the metadata history (C11_refuted_updated_at). '
-                'Writability: first committed facade write flips the state and draws log id = max+1 and transaction id = max+1 (C11_writable_single; bulk elements are such writes); REFUTED for the ATOMIC bulk on the still-initializing copy '
-                '(never-resynchronised sequences: primary-key collision -> nil dereference in InsertTransaction / runLog, or a log id below the imported ones: C11_refuted_atomic_writable, C11_refuted_atomic_log_id; S-11).',
+                'Writability: first committed facade write flips the state and draws log id = max+1 and transaction id = max+1 (C11_writable_single; bulk elements are such writes); the ATOMIC bulk follows the same protocol since the repair fixes/01-facade-begintx (C11_writable_atomic: a one-element atomic bulk IS the facade write). '
+                'Before the repair (S-11, confirmed on the real stack, finding fixed): never-resynchronised sequences, primary-key collision -> nil dereference in InsertTransaction / runLog, or a log id below the imported ones (C11_unrepaired_atomic_writable, C11_unrepaired_atomic_log_id).',
     trusted=IMP_TRUST,
     technique='Coq proofs (per-log simulation relation between the write path and importLog, induction over histories, hash-chain induction, case analysis of the state tracker, vm_compute witnesses) about an executable model of Export/Import/importLog/handleState/Bulker + differential run against the real stack + source-vs-copy monitor',
     level_text='Unbounded theorems: the round trip for every history, feature set and hash function on volumes, transactions (all columns but effective volumes), transaction metadata history, logs and hashes; moves/effective volumes and accounts under stated hypotheses; writability through the facade with ids = max+1; refutations of the remaining parts reproduced on the real code.',
@@ -30,15 +30,15 @@ PROPS['C11'] = dict(
 
 PROPS['C12'] = dict(
     target='Props/C12',
-    theorems=['C12_only_pristine', 'C12_after_write_rejected', 'C12_after_bulk_write_rejected', 'C12_monotone', 'C12_import_keeps_state', 'C12_partial_atomic_never_flips', 'C12_refuted_atomic_bypass'],
+    theorems=['C12_only_pristine', 'C12_after_write_rejected', 'C12_after_bulk_write_rejected', 'C12_monotone', 'C12_import_keeps_state', 'C12_atomic_flips_or_no_effect', 'C12_after_atomic_write_rejected', 'C12_unrepaired_atomic_never_flips', 'C12_unrepaired_atomic_bypass'],
     ties=[dict(name='TIE-D importx', vh='importx', model='importx', n=dict(quick=400, thorough=10000), kinds=['C12'], case_head='importx', timeout=dict(quick=600, thorough=6000))],
     rule=IMP_RULE,
     explanation='Sequential part proved for every hash function: accepted => initializing and every stored log id below every imported id (C12_only_pristine); after a committed facade write every import is refused with no effect '
-                '(C12_after_write_rejected; C12_after_bulk_write_rejected for a non-atomic bulk with an accepted element); in-use is absorbing for all three write paths and imports (C12_monotone). REFUTED for the atomic-bulk path (C12_refuted_atomic_bypass, confirmed on the real stack, known finding): '
-                'the facade inherits BeginTX, the bulk commits without flipping the state, a later import is accepted and changes the ledger. The concurrent part is reduced to the hook stated in Props/C12.v (lock held by Import for its whole duration); schedules are not explored by this check.',
+                '(C12_after_write_rejected; C12_after_bulk_write_rejected for a non-atomic bulk with an accepted element); in-use is absorbing for all three write paths and imports (C12_monotone). Atomic bulk: since the repair fixes/01-facade-begintx it commits and leaves the ledger in-use, or has no effect (C12_atomic_flips_or_no_effect, C12_after_atomic_write_rejected). Before the repair (S-11, confirmed on the real stack, finding fixed; C12_unrepaired_atomic_bypass): '
+                'the facade inherited BeginTX, the bulk committed without flipping the state, a later import was accepted and changed the ledger. The concurrent part is reduced to the hook stated in Props/C12.v (lock held by Import for its whole duration); schedules are not explored by this check.',
     trusted=IMP_TRUST,
     technique='Coq proofs (case analysis of the state tracker, fold invariants on the id checks, vm_compute witness) + differential run of import/write scripts against the real stack + rejected-without-effect monitor',
-    level_text='Unbounded theorems about the sequential model of the state tracker and Import; one refutation (atomic bulk bypass) reproduced on the real code. Interleavings are not covered here.',
+    level_text='Unbounded theorems about the sequential model of the state tracker and Import; the atomic-bulk bypass found by the check was repaired (fixes/01-facade-begintx). Interleavings are not covered here.',
     level_note=IMP_NOTE)
 
 # C14 on the import path: streams that reuse a non-empty reference (the export followed by its copy with ids shifted above it in ONE stream; the shifted copy on top of
